@@ -691,7 +691,11 @@ impl CompositionGraph {
         })?;
 
         // Add dependency edges to any existing defined types that reference this one
-        for (other_ty, other) in &self.defined {
+        // (in node order, so that the edges and everything derived from their order
+        // do not depend on the iteration order of the map)
+        let mut existing = self.defined.iter().collect::<Vec<_>>();
+        existing.sort_by_key(|(_, node)| **node);
+        for (other_ty, other) in existing {
             other_ty.visit_defined_types(&self.types, &mut |_, id| {
                 let dep_ty = Type::Value(ValueType::Defined(id));
                 if dep_ty == ty
